@@ -1,4 +1,4 @@
-REPO_FIX_COMMITS = ['2d7a94d', '41c6b34', '15c99e7', '0752c0c', '7f84765', 'af57352', 'e33a24d', '5bdc6b3', '08843a4', '3e03bb0', 'd823a64', '3ba8645', '9eda77c', 'f97803c', '7e803d3']
+REPO_FIX_COMMITS = ['2d7a94d', '41c6b34', '15c99e7', '0752c0c', '7f84765', 'af57352', 'e33a24d', '5bdc6b3', '08843a4', '3e03bb0', 'd823a64', '3ba8645', '9eda77c', 'f97803c', '7e803d3', '0853a40']
 NOT_APPLICABLE = {}
 CHECKS = {
  'C18': dict(
@@ -86,4 +86,15 @@ CHECKS = {
   note='Deterministic distributions only; bit-identity within one interpreter; histories generated as data (replayable '
        'JSON) rather than with RuleBasedStateMachine.',
   design='3/C13'),
+ 'C20': dict(
+  technique='round-trip against an independent .zmx writer over Hypothesis-generated prescriptions, plus a '
+            'coverage-guided Atheris/libFuzzer campaign over FuzzedDataProvider-decoded prescriptions with the same '
+            'oracle inside the target',
+  level='Every field of the loaded lens (counts, radii, vertices, conics, coefficients, media, stop, aperture, fields, '
+        'wavelengths, primary) is compared with the numbers written into the file, in both encodings and three number '
+        'formats; paraxial accessors are compared with the ABCD reference of the written numbers; NSC files must be '
+        'rejected. Counter-example search (Hypothesis) + coverage-guided search (thorough: 12 x 6000 libFuzzer runs).',
+  note='Writer and reference are mine; catalogue glasses restricted to unique single-token exact names; model glass '
+       'index taken from the library\'s AbbeMaterial (C18 covers it).',
+  design='3/C20'),
 }
